@@ -9,7 +9,7 @@ import sys, os
 sys.path.insert(0, os.getcwd())
 from vlib import common as C
 s = C.Snapshot().ensure()
-for w in ("mockery", "verifh", "verifx", "tools"):
+for w in ("mockery", "verifh", "verifx", "tools", "verifsem"):
     p = s.build(w)
     print(w, "->", p if p else "BUILD FAILED: " + s.build_errors.get(w, "")[:500])
 PY
